@@ -351,7 +351,7 @@ func runC12(o *cli.Opts, run *evid.Run) {
 	guard := func(sub string, err error, sys any) {
 		key := "C12/guard/" + sub
 		if err == nil {
-			run.Violate(key, "a deletion circuit of depth 32 was built by "+sub+"; depths above 31 must be refused", nil)
+			run.Violate(key, "a deletion circuit deeper than 31 levels was built by "+sub+"; depths above 31 must be refused", nil)
 		}
 		run.Case("depth-guard", true, key, err == nil, map[string]any{"path": sub, "refused": err != nil, "error": fmt.Sprint(err)})
 	}
@@ -360,6 +360,11 @@ func runC12(o *cli.Opts, run *evid.Run) {
 		guard("BuildR1CSDeletion(32,1)", err, nil)
 		_, err = prover.BuildR1CSDeletion(33, 2)
 		guard("BuildR1CSDeletion(33,2)", err, nil)
+		// every depth above 31, including those at which 1<<depth overflows a machine word
+		for _, d := range []uint32{34, 40, 47, 62, 63, 64, 65, 95, 100, 127, 128, 255, 256, 1 << 16} {
+			_, err = prover.BuildR1CSDeletion(d, 1)
+			guard(fmt.Sprintf("BuildR1CSDeletion(%d,1)", d), err, nil)
+		}
 		_, err = prover.SetupDeletion(32, 1)
 		guard("SetupDeletion(32,1)", err, nil)
 		if guardPK != "" {
